@@ -284,3 +284,121 @@ func VerifC07OutputKey() {
 		vassert(!strings.Contains(rerr.Error(), "panic"), "the mismatch is an ordinary error, not a recovered panic")
 	}
 }
+
+// a branch with END among its end nodes: the start node's output type must fit the graph's output type
+func c07BranchEnd[Out any](outCode int) {
+	ctx := context.Background()
+	vcfg("fifo", 1)
+	outT := vchoose("outT", 7)
+	dyn := vchoose("dyn", 6)
+	pickEnd := vchoose("pickEnd", 2) == 1
+	desc := "x:" + c07Names[outT] + " -> END:" + c07Names[outCode] + " dyn=" + []string{"A", "B", "string", "map", "nil", "Params"}[dyn]
+	prod, can := c07Producer(outT, dyn)
+	if !can {
+		return
+	}
+	g := NewGraph[any, Out]()
+	vassert(g.AddLambdaNode("x", prod) == nil, "node x added")
+	vassert(g.AddLambdaNode("z", InvokableLambda(func(ctx context.Context, in any) (Out, error) { var o Out; return o, nil })) == nil, "node z added")
+	var buildErr error
+	note := func(err error) {
+		if err != nil && buildErr == nil {
+			buildErr = err
+		}
+	}
+	note(g.AddEdge(START, "x"))
+	note(g.AddEdge("z", END))
+	target := "z"
+	if pickEnd {
+		target = END
+	}
+	ends := map[string]bool{"z": true, END: true}
+	note(g.AddBranch("x", NewGraphBranch(func(ctx context.Context, in any) (string, error) { return target, nil }, ends)))
+	r, cerr := g.Compile(ctx)
+	static := c07Static(outT, outCode)
+	if static == 0 {
+		vassert(buildErr != nil || cerr != nil, "a branch to END from a node whose output type cannot fit the graph output is rejected: "+desc)
+		return
+	}
+	vassert(buildErr == nil && cerr == nil, "a branch to END whose types must or may match compiles: "+desc)
+	_, rerr := r.Invoke(ctx, 0)
+	fits := c07DynFits(dyn, outCode)
+	if dyn == 4 {
+		fits = c07IsIface(outCode) && static == 1
+	}
+	if !pickEnd || fits {
+		if pickEnd {
+			vassert(rerr == nil, "a run whose value fits the graph output through the branch succeeds: "+desc)
+		}
+	} else {
+		vassert(rerr != nil, "a value that does not fit the graph output is reported: "+desc)
+		vassert(!strings.Contains(rerr.Error(), "panic"), "... as an ordinary error, not a recovered panic: "+desc)
+	}
+}
+
+func VerifC07BranchEndA()      { c07BranchEnd[c07A](0) }
+func VerifC07BranchEndString() { c07BranchEnd[string](4) }
+func VerifC07BranchEndAny()    { c07BranchEnd[any](3) }
+
+// state handlers: the handler's value type must equal the node's input (pre) / output (post) type; a pass-through
+// node only accepts handlers typed any
+type c07St struct{ n int }
+
+func c07PreOpt(t int) GraphAddNodeOpt {
+	switch t {
+	case 0:
+		return WithStatePreHandler(func(ctx context.Context, in c07A, s *c07St) (c07A, error) { return in, nil })
+	case 2:
+		return WithStatePreHandler(func(ctx context.Context, in c07I, s *c07St) (c07I, error) { return in, nil })
+	case 3:
+		return WithStatePreHandler(func(ctx context.Context, in any, s *c07St) (any, error) { return in, nil })
+	default:
+		return WithStatePreHandler(func(ctx context.Context, in string, s *c07St) (string, error) { return in, nil })
+	}
+}
+func c07PostOpt(t int) GraphAddNodeOpt {
+	switch t {
+	case 0:
+		return WithStatePostHandler(func(ctx context.Context, out c07A, s *c07St) (c07A, error) { return out, nil })
+	case 2:
+		return WithStatePostHandler(func(ctx context.Context, out c07I, s *c07St) (c07I, error) { return out, nil })
+	case 3:
+		return WithStatePostHandler(func(ctx context.Context, out any, s *c07St) (any, error) { return out, nil })
+	default:
+		return WithStatePostHandler(func(ctx context.Context, out string, s *c07St) (string, error) { return out, nil })
+	}
+}
+
+func VerifC07StateHandlers() {
+	ctx := context.Background()
+	vcfg("fifo", 1)
+	hts := []int{0, 2, 3, 4}
+	ht := hts[vchoose("handlerType", 4)]
+	post := vchoose("post", 2) == 1
+	passthrough := vchoose("passthrough", 2) == 1
+	g := NewGraph[c07A, c07A](WithGenLocalState(func(ctx context.Context) *c07St { return &c07St{} }))
+	var opt GraphAddNodeOpt
+	if post {
+		opt = c07PostOpt(ht)
+	} else {
+		opt = c07PreOpt(ht)
+	}
+	var addErr error
+	if passthrough {
+		addErr = g.AddPassthroughNode("n", opt)
+	} else {
+		addErr = g.AddLambdaNode("n", InvokableLambda(func(ctx context.Context, in c07A) (c07A, error) { return in, nil }), opt)
+	}
+	e1 := g.AddEdge(START, "n")
+	e2 := g.AddEdge("n", END)
+	r, cerr := g.Compile(ctx)
+	okType := (passthrough && ht == 3) || (!passthrough && ht == 0)
+	desc := c07Names[ht]
+	if !okType {
+		vassert(addErr != nil && cerr != nil, "a state handler whose type differs from the node's type is rejected when the node is added: handler "+desc)
+		return
+	}
+	vassert(addErr == nil && e1 == nil && e2 == nil && cerr == nil, "a state handler of the node's own type is accepted: handler "+desc)
+	out, rerr := r.Invoke(ctx, c07A{X: 5})
+	vassert(rerr == nil && out.X == 5, "a graph with accepted state handlers runs")
+}
